@@ -325,7 +325,39 @@ type compositeSite struct {
 }
 
 func compositesOf(info *types.Info, fd *ast.FuncDecl, elem *types.Named) []compositeSite {
+	return compositesOfDepth(info, fd, elem, map[*ast.FuncDecl]bool{})
+}
+
+// compositesOfDepth also looks into functions of the same package that fd calls and that return
+// an element (a reader split into helper functions): their element literals are fd's.
+func compositesOfDepth(info *types.Info, fd *ast.FuncDecl, elem *types.Named, seen map[*ast.FuncDecl]bool) []compositeSite {
 	var out []compositeSite
+	if seen[fd] || len(seen) > 4 {
+		return nil
+	}
+	seen[fd] = true
+	if streamsCache != nil {
+		ast.Inspect(fd.Body, func(n ast.Node) bool {
+			c, ok := n.(*ast.CallExpr)
+			if !ok {
+				return true
+			}
+			f := calleeFunc(info, c)
+			if f == nil {
+				return true
+			}
+			cd := streamsCache.funcDecl[f]
+			if cd == nil || cd.Body == nil || cd.Recv != nil || streamsCache.declPkg[cd] != streamsCache.declPkg[fd] {
+				return true
+			}
+			sig, _ := f.Type().(*types.Signature)
+			if sig == nil || sig.Results().Len() < 1 || namedOf(sig.Results().At(0).Type()) != elem {
+				return true
+			}
+			out = append(out, compositesOfDepth(info, cd, elem, seen)...)
+			return true
+		})
+	}
 	var stack []ast.Node
 	ast.Inspect(fd.Body, func(n ast.Node) bool {
 		if n == nil {
